@@ -4,7 +4,7 @@
    any name / order / body kind, Start, Run, Shutdown / ShutdownAndWait); a schedule is any list of
    (thread, choice); worker goroutines are spawned by the model. *)
 From Coq Require Import ZArith List Bool.
-From Verif.C20_Daemon Require Import Model Base Inv Frame Skel Proofs Full.
+From Verif.C20_Daemon Require Import Model Base Inv Frame Skel Proofs Full Run Names.
 Import ListNotations.
 Open Scope Z_scope.
 
@@ -55,6 +55,12 @@ Theorem C20_running_name_refused : forall pool sch, Forall entry pool ->
   forall newer t old n, log (run fixed sch (init pool)) = newer ++ EvBW t ROk :: old -> name_of_call old t = Some n ->
   forall v c o, In (EvStart v c n o) old -> c <> t -> returned_in old v = true.
 Proof. exact running_name_refused. Qed.
+(* ... without the side premise: the call has begun with some name n (its EvBegin precedes its return). *)
+Theorem C20_running_name_refused_named : forall pool sch, Forall entry pool ->
+  forall newer t old, log (run fixed sch (init pool)) = newer ++ EvBW t ROk :: old ->
+  exists n, name_of_call old t = Some n /\
+    forall v c o, In (EvStart v c n o) old -> c <> t -> returned_in old v = true.
+Proof. exact running_name_refused_named. Qed.
 Theorem C20_running_name_state : forall pool sch, Forall entry pool ->
   let s := run fixed sch (init pool) in
   forall t n o k, thr s t (BW5 n o k) -> forall v, live s v -> w_name (gw s v) <> n.
@@ -86,6 +92,27 @@ Example C20_running_name_is_refused :
 Proof. exact ex_refused. Qed.
 Example C20_example_pool_ok : Forall entry ex_pool.
 Proof. exact ex_entry. Qed.
+
+(* Run returns only after every started worker has returned - for ALL pools and ALL schedules that satisfy the
+   explicit guard Run.run_guard: no step starts a worker (runBackgroundWorker from BackgroundWorker or Start) while
+   some Run call is waiting on its snapshot of the wait groups.  The known finding run-returns-before-late-worker
+   (C20_refuted_run_early) is exactly a start after that snapshot: C20_run_guard_excludes_finding. *)
+Theorem C20_run : forall pool sch, Forall entry pool -> run_guard sch (init pool) = true ->
+  run_ok (log (run fixed sch (init pool))) = true.
+Proof. exact run_guarded. Qed.
+Theorem C20_run_returns_after_all : forall pool sch, Forall entry pool -> run_guard sch (init pool) = true ->
+  forall newer t old, log (run fixed sch (init pool)) = newer ++ EvRunRet t :: old ->
+  forall v c n o, In (EvStart v c n o) old -> returned_in old v = true.
+Proof. exact run_guarded_split. Qed.
+Theorem C20_run_guard_excludes_finding : run_guard d20b_sched (init d20b_pool) = false.
+Proof. exact d20b_outside_guard. Qed.
+(* non-vacuity: Run, one worker (returns on cancel), a shutdown: the guard holds, the worker is cancelled and
+   Run returns after it returned *)
+Example C20_run_nonvacuous :
+  Forall entry exr_pool /\ run_guard exr_sched (init exr_pool) = true /\
+  log (run fixed exr_sched (init exr_pool)) =
+    [EvShutRet 2; EvRunRet 1; EvReturn 0; EvCancel 0; EvStart 0 0 0 1; EvBW 0 ROk; EvBegin 0 0].
+Proof. exact exr_ok. Qed.
 
 (* Proved for ALL pools and ALL schedules (clause "after shutdown no worker can be added or started"):
    in every history no worker starts and no BackgroundWorker call returns nil after some
@@ -170,6 +197,10 @@ Print Assumptions C20_wait_all.
 Print Assumptions C20_wait_all_state.
 Print Assumptions C20_running_name_refused.
 Print Assumptions C20_running_name_state.
+Print Assumptions C20_running_name_refused_named.
+Print Assumptions C20_run.
+Print Assumptions C20_run_returns_after_all.
+Print Assumptions C20_run_guard_excludes_finding.
 Print Assumptions C20_after_shutdown.
 Print Assumptions C20_after_shutdown_state.
 Print Assumptions C20_refused_when_stopped.
